@@ -211,7 +211,7 @@ def gen_program(rng, cfg=None):
                 fields.append(gen_inline(rng, cfg, name, cfg.inline_depth, later, metas))
             elif cfg.allow_checksum and r < 0.47:
                 fields.append({"kind": "checksum", "name": name, "type": rng.choice(INTS if rng.random() < 0.3 else ["u32", "u16", "u8", "u64"]),
-                               "algo": rng.choice(['"CRC32"', '"SUM8"', '"XOR"']), "prefixed": rng.random() < 0.5, "doc": None})
+                               "algo": rng.choice(['"CRC32"', '"SUM8"', '"XOR"', '"crc32"', '"Adler32"']), "prefixed": rng.random() < 0.5, "doc": None})
             else:
                 f = gen_simple_field(rng, cfg, name, metas)
                 if cfg.allow_tag and rng.random() < 0.1:
